@@ -32,7 +32,7 @@ GUARD = "SOUNDSWALLOWER_VERIF"
 DEFAULT_REPO = os.environ.get("SSW_REPO", "/repo")
 CBMC_BASE = ["--drop-unused-functions", "--pointer-check", "--bounds-check", "--signed-overflow-check", "--div-by-zero-check",
              "--no-malloc-may-fail", "--pointer-overflow-check"]
-MEM_KB = 10 * 1024 * 1024
+MEM_KB = 20 * 1024 * 1024
 TIMEOUT = {"quick": 420, "thorough": 1500}
 CONFIG_H_DEFAULT = """#define HAVE_UNISTD_H
 #define HAVE_STDINT_H
